@@ -32,12 +32,13 @@ class Path:
 
 
 class Explorer:
-    def __init__(self, assume=(), max_paths=2000, max_depth=200, timeout_ms=10000, fork_where=False):
+    def __init__(self, assume=(), max_paths=2000, max_depth=200, timeout_ms=10000, fork_where=False, feasibility=True):
         self.assume = [a for a in assume if a is not tm.TRUE]
         self.max_paths = max_paths
         self.max_depth = max_depth
         self.timeout_ms = timeout_ms
         self.fork_where = fork_where
+        self.feasibility = feasibility
         self.stats = {'paths': 0, 'pruned': 0, 'unknown_kept': 0, 'bound_reached': 0, 'aborted': 0,
                       'truncated': False}
 
@@ -65,8 +66,19 @@ class Explorer:
 
             def branch(cond, c=c, prefix=prefix, pending=pending):
                 i = len(c.path)
+                # a condition already decided on this path (or its negation) keeps its decision
+                for pc, pd in c.path:
+                    if pc is cond:
+                        return pd
+                    if (pc.op == 'not' and pc.a[0] is cond) or (cond.op == 'not' and cond.a[0] is pc):
+                        return not pd
                 if i < len(prefix):
                     d = prefix[i]
+                elif not self.feasibility:
+                    if i >= self.max_depth:
+                        raise BoundReached()
+                    pending.append([x for _, x in c.path] + [False])
+                    d = True
                 else:
                     if i >= self.max_depth:
                         raise BoundReached()
